@@ -79,10 +79,35 @@ def zones(ctx):
     return [(Z.safe_id(i), i, tz[i]) for i in canon + aliases]
 
 
+def fixed_offsets(ctx):
+    offs = [0, 1, -1, 1800, -1800, 3600, 64800, -64800, 64799, 45 * 60, 12345]
+    # around every half hour (for_offset keeps a table of the whole half hours): a few seconds and minutes off
+    for k in ctx.rng.sample(range(-36, 37), ctx.scale(10, 73)):
+        offs += [k * 1800 + d for d in (0, 1, -1, 59, -59, 60, -60, 1799) if -64800 <= k * 1800 + d <= 64800]
+    offs += [ctx.rng.randint(-64800, 64800) for _ in range(ctx.scale(20, 400))]
+    return list(dict.fromkeys(offs))
+
+
 def fixed_zones(ctx):
     Pm = Z.P()
-    offs = [0, 1, -1, 1800, -1800, 3600, 64800, -64800, 64799, 45 * 60, 12345] + [ctx.rng.randint(-64800, 64800) for _ in range(ctx.scale(20, 400))]
-    return [(f"fixed{o}", None, Pm.DateTimeZone.for_offset(Pm.Offset.from_seconds(o))) for o in offs]
+    return [(f"fixed{o}", None, Pm.DateTimeZone.for_offset(Pm.Offset.from_seconds(o))) for o in fixed_offsets(ctx)]
+
+
+def check_fixed_zone(o):
+    """DateTimeZone.for_offset(o): one interval over all of time with wall = standard = o, savings 0, advertised range [o, o]"""
+    Pm = Z.P()
+    z = Pm.DateTimeZone.for_offset(Pm.Offset.from_seconds(o))
+    again = Pm.DateTimeZone.for_offset(Pm.Offset.from_seconds(o))
+    for t in (MINI, 0, MAXI, 1234567890123456789):
+        zi = z.get_zone_interval(Z.ns_inst(t))
+        got = (zi.wall_offset.seconds, zi.standard_offset.seconds, zi.savings.seconds, z.get_utc_offset(Z.ns_inst(t)).seconds,
+               z.min_offset.seconds, z.max_offset.seconds, zi.has_start, zi.has_end)
+        if got != (o, o, 0, o, o, o, False, False):
+            return {"key": "fixed-zone-wrong-offset", "what": f"DateTimeZone.for_offset({o} s) -> zone {z.id!r}: at instant {t} (wall, standard, savings, "
+                    f"get_utc_offset, min, max, has_start, has_end) = {got}, expected ({o}, {o}, 0, {o}, {o}, {o}, False, False)"}
+    if again.id != z.id or again.get_utc_offset(Z.ns_inst(0)).seconds != o:
+        return {"key": "fixed-zone-wrong-offset", "what": f"DateTimeZone.for_offset({o} s) asked twice gives {z.id!r} then {again.id!r}"}
+    return None
 
 
 def impl_factory(zmap):
@@ -169,7 +194,9 @@ def year_ns(y):
 
 
 def run(ctx):
-    zs = zones(ctx) + fixed_zones(ctx)
+    fz = fixed_zones(ctx)
+    ctx.check_cases("fixed-zones.offset-asked-for", [int(sid[5:]) for sid, _, _ in fz], check_fixed_zone)
+    zs = zones(ctx) + fz
     zmap = {sid: z for sid, _, z in zs}
     defs = [Z.zone_def_line(sid, z) for sid, _, z in zs]
     ctx.note("zones", len(zs))
@@ -355,8 +382,13 @@ def _explore(ctx, keys):
 
 
 def replay_op(op, failure):
+    if failure.get("source", "") == "oracle:fixed-zones.offset-asked-for":
+        return check_fixed_zone(int(op))
     t = op.split(" ")
     zid = t[1]
+    if zid.startswith("u~"):
+        z = Z.unwrap(Z.tzdb()[next((k for k in Z.all_ids() if Z.safe_id(k) == zid[2:]), zid[2:])])
+        return oracle_factory({zid: z})(t)
     if failure.get("history"):
         # order-dependent failure: rebuild a fresh zone object and repeat the recorded lookups first
         from pyoda_time.time_zones._tzdb_date_time_zone_source import TzdbDateTimeZoneSource
